@@ -133,8 +133,8 @@ def plan(ctx):
                 + fam.select(p2, 40, ctx.seed, name) + fam.select(fam.side_premise(), 20, ctx.seed, name) \
                 + SPECIAL
         else:
-            sel = pool + fam.select(p1, 200, ctx.seed, name) + fam.select(p2, 600, ctx.seed, name) \
-                + fam.random_args(ctx.seed, 60) + fam.side_premise() + SPECIAL
+            sel = pool + fam.select(p1, 150, ctx.seed, name) + fam.select(p2, 400, ctx.seed, name) \
+                + fam.random_args(ctx.seed, 40) + fam.side_premise() + SPECIAL
         sel = list(dict.fromkeys(sel))
         n = 3 if ctx.quick else 8
         for k in range(n):
@@ -185,7 +185,7 @@ def run(ctx):
         lemmas_discharged_elsewhere=dict(rules='C04', closure='C05', freshness='C06'),
         bounds=dict(worlds=3, domain=3,
                     arguments='40 family + 80 propositional + 20 side-premise per logic by seed + 4 fixed' if ctx.quick
-                    else 'all family + 800 propositional + 60 random + side-premise (144) + 4 fixed per logic',
+                    else 'all family + 550 propositional + 40 random + side-premise (144) + 4 fixed per logic',
                     options='both flags symbolic (4 paths)', order_seed=ctx.seed, max_steps=600),
         solver=stats.asdict(),
         functions_executed=['System.build_trunk', 'Tableau.build', 'all rules, closure rules'],
